@@ -375,12 +375,25 @@ func (c *Cluster) runOracles(final bool) {
 // tooBig: deterministic cost cap (a stalled network keeps growing its
 // undetermined set; consensus passes are quadratic in it).
 func (c *Cluster) tooBig() bool {
+	if len(c.dag.order) > 3500 {
+		return true
+	}
 	for _, n := range c.nodes {
 		if !n.running() {
 			continue
 		}
-		und := len(n.core().Hashgraph().UndeterminedEvents)
+		if n.storePoints > 40000 {
+			// database commits dominate the cost of runs with persistent nodes
+			return true
+		}
+		h := n.core().Hashgraph()
+		und := len(h.UndeterminedEvents)
 		if und > 1200 || (n.cacheSize < 1000 && und > n.cacheSize/2) {
+			return true
+		}
+		// a round that stays undecided while later rounds pile up makes every
+		// DecideFame pass quadratically more expensive
+		if len(h.PendingRounds.GetOrderedPendingRounds()) > 30 {
 			return true
 		}
 	}
